@@ -279,6 +279,9 @@ pub fn rename_triples() -> Vec<(Name, Name, bool)> {
         (nm("z"), nm("nomatch.example"), false),
         (name_of_wire_len(252), nm("a"), true),
         (nm("B.A"), nm("b.a"), false),
+        // structurally sound target holding a byte the record-name policy forbids: must fail (and change
+        // nothing) whenever some name is actually rewritten
+        (vec![2, b'k', 0x01, 0], nm("a"), true),
     ]
 }
 
